@@ -409,7 +409,14 @@ def run(ctx):
             continue
         if "63" in t[3].split(",") and "63" not in t[1].split(","):
             continue   # a real number was formatted ('?'): outside this check
-        lines.append("tplrender %s %s %s" % (w, l.split(" ")[2], t[1]))
+        dcode = l.split(" ")[2]
+        if len(lines) % 6 == 5:
+            # the same document with some containers (also the root) reached through a pointer-to-value (one hop: IsObject() and friends look through exactly one):
+            # a pointer is transparent for every read, so the expected text is unchanged
+            import re as _re
+            dcode = ",".join(("p," + tk) if _re.match(r"^[ao]\d+$", tk) and ctx.rng.random() < 0.4 else tk
+                             for tk in dcode.split(","))
+        lines.append("tplrender %s %s %s" % (w, dcode, t[1]))
         expected.append("R " + t[3])
         keep.append(l)
     if bad_spec:
